@@ -18,7 +18,7 @@ real Template / TemplateLookup and compared with an independent oracle:
             enable_loop configurations: NameConflictError demanded
   kwargs    context.kwargs at every kind of position x entry points
   flagname  the variable spelled like each escape flag (x h u n trim entity unicode decode str) + a control
-            spelling x 22 read sites (nested-def defaults, keyword-only defaults, cache_key / cache_* attribute
+            spelling x 24 read sites (nested-def, top-level-def and def-in-<%call> defaults, keyword-only defaults, cache_key / cache_* attribute
             expressions of defs, blocks and the page, expressions, code, control lines, call tags) x present /
             absent x strict on/off; oracle = direct formula
 """
@@ -61,7 +61,7 @@ BOUNDS = {
                   "{after, before} + 23 statement binders x {after, before}; x container {body, top-level def} x name {present, absent} x strict on/off",
         "reserved": "4 names x 6 entry points x 3 enable_loop configurations; 4 names x 15 assignment forms x 3 scopes x 3 configurations",
         "kwargs": "10 positions x 4 entry points x 3 argument sets",
-        "flagname": "22 read sites x 10 spellings (9 escape-flag names + control) x {present, absent} x strict on/off, minus str-present",
+        "flagname": "24 read sites x 10 spellings (9 escape-flag names + control) x {present, absent} x strict on/off, minus str-present",
     },
     "thorough": {
         "res": "all 256 subsets of the 8 binding sites x {plain, builtin} x 15 read sites x 3 styles x strict on/off x binding statement "
@@ -70,7 +70,7 @@ BOUNDS = {
         "reread": "as quick x container {body, top-level def, nested def, anonymous block, call body}",
         "reserved": "as quick + 5 scopes",
         "kwargs": "as quick",
-        "flagname": "22 read sites x 10 spellings (9 escape-flag names + control) x {present, absent} x strict on/off, minus str-present",
+        "flagname": "24 read sites x 10 spellings (9 escape-flag names + control) x {present, absent} x strict on/off, minus str-present",
     },
 }
 
@@ -901,12 +901,14 @@ FLAG_SITES = {
     "call-tag-attribute": ('<%self:show v="${NAME}"/><%def name="show(v)">[${sh(v)}]</%def>', "[{v}]"),
     "call-tag-expr": ('<%call expr="show(NAME)"></%call><%def name="show(v)">[${sh(v)}]</%def>', "[{v}]"),
 }
-# Sites that fail on the unchanged tree for EVERY spelling (reported as separate findings, not enumerated until adjudicated):
-FLAG_SITES_PENDING = {
+# Sites that fail on the unchanged tree for EVERY spelling: two open known findings (C04-toplevel-def-default-reads-context,
+# C04-def-in-call-default-reads-context, matched on the signature prefix "flagname:<site>:"); enumerated like the others
+FLAG_SITES_KNOWN = {
     "toplevel-def-default": ('<%def name="f(k=NAME)">[${sh(k)}]</%def>${f()}', "[{v}]"),
     "def-in-call-default": (
         '<%call expr="w()"><%def name="inner(k=NAME)">[${sh(k)}]</%def>${inner()}</%call><%def name="w()">${caller.body()}</%def>', "[{v}]"),
 }
+FLAG_SITES.update(FLAG_SITES_KNOWN)
 
 
 def flag_cases(al):
